@@ -167,7 +167,7 @@ def gen_config(r: random.Random, profile: str = "valid") -> Dict[str, Any]:
         mode = r.choice(["one", "count", "count", "range", "range"])
         big = r.random() < 0.06  # populations beyond 256 / 1024 entities
         if mode == "count":
-            eff["numAgents"] = r.choice([1, 2, 3, 6]) if not big else r.choice([257, 300, 520, 1100])
+            eff["numAgents"] = r.choice([0, 1, 2, 3, 6]) if not big else r.choice([257, 300, 520, 1100])
         elif mode == "range":
             lo = r.choice([0, 0, 2, 5])
             eff["from"] = lo
@@ -259,14 +259,36 @@ def make_hostile(r: random.Random, scn: Dict[str, Any]) -> None:
     elif kind == "count_and_range":
         _set_own(cfg, tgt, {"from": 0, "to": 1, "numMarkets" if tgt in mg else "numAgents": 2})
     elif kind == "bad_dist":
-        t = r.choice(ag)
+        # the distribution spec is only evaluated when an agent of the group is actually built
+        nonempty = []
+        for g in ag:
+            try:
+                st_ = ref_resolve(cfg, g, ("from", "to"))
+                if len(group_expansion(g, st_, "numAgents")[0]) >= 1:
+                    nonempty.append(g)
+            except Exception:
+                pass
+        if not nonempty:
+            cfg[ag[0]]["numAgents"] = 1
+            cfg[ag[0]].pop("from", None)
+            cfg[ag[0]].pop("to", None)
+            nonempty = [ag[0]]
+        t = r.choice(nonempty)
         _set_effective(cfg, t, "cashAmount", r.choice([{"uniform": [1]}, {"unknown": [1]}, {"const": 1}, [1, 2, 3],
                                                         {"const": [1], "uniform": [0, 1]}, {"normal": [0]}, {"expon": [1, 2]}]))
     elif kind == "no_ticksize":
         t = r.choice(mg)
         _strip_effective(cfg, t, ["tickSize"])
     elif kind == "group_twice":
-        t = r.choice(mg + ag)
+        # listing a group twice is only an error when it creates at least one entity (duplicate names)
+        cands = list(mg)
+        for g in ag:
+            try:
+                if len(group_expansion(g, ref_resolve(cfg, g, ("from", "to")), "numAgents")[0]) >= 1:
+                    cands.append(g)
+            except Exception:
+                pass
+        t = r.choice(cands)
         (cfg["simulation"]["markets"] if t in mg else cfg["simulation"]["agents"]).append(t)
     elif kind == "no_class":
         _strip_effective(cfg, tgt, ["class"])
